@@ -380,6 +380,7 @@ func runProducerScenario(t testing.TB, rec *vRec, sc *prodScenario) {
 	}
 
 	config := NewConfig()
+	config.ClientID = c.clientID
 	v, err := ParseKafkaVersion(cfgv.Version)
 	if err != nil {
 		t.Fatalf("bad version %q", cfgv.Version)
